@@ -77,6 +77,20 @@ impl HistProp {
 
     /// strict replay: no known-finding exclusions
     pub fn replay_strict(&self, v: &Value) -> CaseResult {
+        if v.get("kind").and_then(|k| k.as_str()) == Some("scripts") {
+            // a bundle: every scenario on every listed stack
+            let cfgs = v.get("cfgs").and_then(|c| c.as_array()).cloned().unwrap_or_default();
+            for sc in v.get("scenarios").and_then(|c| c.as_array()).cloned().unwrap_or_default() {
+                for cfg in &cfgs {
+                    let one = serde_json::json!({"kind": "script", "cfg": cfg, "ops": sc.get("ops").cloned().unwrap_or(Value::Null), "scenario": sc.get("name").cloned().unwrap_or(Value::Null)});
+                    run_script(&one, &self.opts, &*no_exclusions()).map_err(|mut f| {
+                        f.message = format!("scenario {} on {}: {}", sc.get("name").and_then(|n| n.as_str()).unwrap_or("?"), cfg, f.message);
+                        f
+                    })?;
+                }
+            }
+            return Ok(());
+        }
         if v.get("kind").and_then(|k| k.as_str()) == Some("script") {
             return run_script(v, &self.opts, &*no_exclusions());
         }
